@@ -58,6 +58,24 @@ fn pools() -> Vec<Pool> {
             closed: vec!["(PAIR (q . (1 . 2)) 3)", "(SWAP 1 2)", "(PAIR (SWAP 1 2) 3)", "(REST3 1 2 3)", "(REST3 1 &rest (q . (8 9)))", "(SWAP (SWAP 1 2) 3)"],
             open: vec!["(PAIR A B)", "(SWAP A B)", "(PAIR (SWAP A B) A)", "(REST3 A B)", "(REST3 A &rest B)", "(SWAP (f A) (r A))"],
         },
+        Pool {
+            name: "lambdas-and-captures",
+            defs: vec![
+                ("(defun adder (P) (lambda ((& P) X) (lambda ((& P X) Y) (+ (* P X) Y))))", vec![], "adder"),
+                ("(defun adder2 (P) (lambda ((& P) X) (lambda ((& X P) Y) (+ (* P X) Y))))", vec![], "adder2"),
+                ("(defun map (F L) (if L (c (a F (list (f L))) (map F (r L))) ()))", vec![], "map"),
+                ("(defun addall (K L) (map (lambda ((& K) E) (+ K E)) L))", vec!["map"], "addall"),
+            ],
+            closed: vec![
+                "(a (a (adder 10) (list 2)) (list 3))",
+                "(a (a (adder2 10) (list 2)) (list 3))",
+                "(addall 10 (q . (1 2 3)))",
+                "(a (lambda ((& ) X Y) (list X Y)) (list 1 2))",
+                "(map (lambda (E) (a (lambda ((& E) Z) (c E Z)) (list 5))) (q . (1 2)))",
+                "(a (a (lambda (P) (lambda ((& P) X Y) (list P X Y))) (list 7)) (list 8 9))",
+            ],
+            open: vec!["(a (a (adder A) (list 2)) (list 3))", "(a (a (adder 10) (list A)) (list B))", "(a (lambda ((& A B) Y) (list A B Y)) (list 3))", "(a (lambda ((& A) Y) (list A Y)) (list B))"],
+        },
     ]
 }
 
@@ -148,10 +166,28 @@ fn check_pool_expr(st: &mut Stats, pool: &Pool, expr: &str, open: bool, counters
         results.push((o.clone(), r));
     }
     let replay = json!({"kind": "c16", "pool": pool.name, "expr": expr, "defs": defs_text});
-    // order independence
+    // order independence (generated names carry a counter: compared after renumbering)
+    fn norm(r: &ReplOut) -> ReplOut {
+        fn strip(s: &str) -> String {
+            let mut out = String::new();
+            let mut it = s.split("_$_");
+            if let Some(first) = it.next() {
+                out.push_str(first);
+            }
+            for part in it {
+                out.push_str("_$_N");
+                out.push_str(part.trim_start_matches(|c: char| c.is_ascii_digit()));
+            }
+            out
+        }
+        match r {
+            ReplOut::Residual(t) => ReplOut::Residual(strip(t)),
+            other => other.clone(),
+        }
+    }
     let first = &results[0].1;
     for (o, r) in &results[1..] {
-        if r != first {
+        if norm(r) != norm(first) {
             st.violation(&format!("order-dependent/{}", pool.name), format!("pool {}: expression {} gives {:?} after definition order {:?} but {:?} after order {:?}", pool.name, expr, first, results[0].0, r, o), expr.len(), replay.clone());
             break;
         }
